@@ -433,3 +433,31 @@ def r05_9(ctx):
         if not bad:
             ctx.holds("R05.9", f, "batch-never-shrinks", f.loc(), "the collected batch (locals %s) is only grown" % sorted(acc))
     ctx.floor("R05.9", n, 1)
+
+
+def r05_11(ctx):
+    """the vector's publication function publishes before it returns: every path from its entry to a return either passes
+    `Sender::send` or takes the "there is no receiver" edge. A path that parks the diff somewhere else (a pending batch, a
+    buffer flushed later) leaves a window in which the mutation has happened - the mutator has returned - but a subscriber
+    polled now is Pending on a stale replica; and whatever is supposed to flush later may never run (early exit, panic)."""
+    F = ctx.facts
+    vec_pub, txn_pub = publication_fns(F)
+    if len(vec_pub) != 1:
+        return
+    f = vec_pub[0]
+    b = inl(F, f, desugar=True, tag="r05.11") or f.built
+    sends = [blk for blk, t in b.calls(r"broadcast::Sender::<.*>::send$")]
+    no_rx_edges = []
+    for sblk in sorted(b.reachable()):
+        info = conds.switch_info(b, sblk)
+        if not info:
+            continue
+        for t_, fs in info["edges"].items():
+            for fct in fs:
+                if fct[0] == "cmp" and fct[1] in ("Eq", "Le") and ((contains(fct[2], lambda y: y[0] == "call" and ecall_matches(y, r"::receiver_count$")) and is_const_int(fct[3], 0))
+                                                                     or (contains(fct[3], lambda y: y[0] == "call" and ecall_matches(y, r"::receiver_count$")) and is_const_int(fct[2], 0))):
+                    no_rx_edges.append((sblk, t_))
+    silent = [r for r in b.reachable_from(0, avoid_blocks=sends, avoid_edges=no_rx_edges) if b.term(r)["k"] == "return"]
+    ctx.verdict(not silent, "R05.11", f, "publication-before-return", b.line_at((silent[0], 0)) if silent else f.loc(),
+                "every return of the publication function is behind Sender::send or the no-receiver edge",
+                "`%s` can return (bb%s) without having sent the diff although receivers exist: the mutation is visible in the vector but not published - a subscriber polled now is Pending on a stale replica, and a later flush may never happen" % (f.path, silent[0] if silent else ""))
